@@ -7,9 +7,11 @@ def parseMErr (s : String) : Option MErr :=
   if s == "nil" then some .nil
   else if s == "closed" then some .closed
   else if s == "wclosed" then some .wrappedClosed
+  else if s == "wbn" then some (.block 1)       -- a block wrapped in another error is a block all the same
   else if s == "bn" then some (.block 1)        -- a negative Delay: a pause that is over already, finite like any non-zero one
   else match s.toList with
     | 'e' :: r => (String.ofList r).toNat?.map .plain
+    | 'w' :: 'b' :: r => (String.ofList r).toNat?.map .block
     | 'b' :: r => (String.ofList r).toNat?.map .block
     | _ => none
 
